@@ -2,8 +2,19 @@
 //!
 //! Registers hold real `KmerMinHash` / `KmerMinHashBTree` values; every op line calls the real
 //! method and prints the observable result.  See lean/Driver/C03.lean for the model/spec side.
+//!
+//! C-API stream: the ops whose name starts with `c` (`cnew`, `cadd`, `caddm`, `csetab`, `crmmany`,
+//! `cmerge`, `caddfrom`, `crmfrom`, `cisect`, `cisize`, `ccc`, `ccompat`, `cobs`, `cparams`) do the
+//! same through the exported `kmerminhash_*` functions of src/core/src/ffi/minhash.rs: the register
+//! is handed over as a `SourmashKmerMinHash` handle (`ForeignObject::from_rust`), the second operand
+//! as a handle to a copy, results come back through the out-pointers / returned handles, and after
+//! every call `sourmash_err_get_last_code` is read (and cleared).  They answer in the format of the
+//! native op, so the same model / spec columns apply.
 use sourmash::encodings::HashFunctions;
-use sourmash::sketch::minhash::{max_hash_for_scaled, KmerMinHash, KmerMinHashBTree};
+use sourmash::ffi::minhash::*;
+use sourmash::ffi::utils::{sourmash_err_clear, sourmash_err_get_last_code, ForeignObject};
+use sourmash::ffi::HashFunctions as FfiHashFunctions;
+use sourmash::sketch::minhash::{max_hash_for_scaled, scaled_for_max_hash, KmerMinHash, KmerMinHashBTree};
 use sourmash::signature::{Signature, SigsTrait};
 use sourmash::sketch::Sketch;
 use std::collections::BTreeMap;
@@ -166,6 +177,261 @@ fn sig_add(threads: usize, force: bool, prot: bool, specs: &str, seqs: &[&str]) 
     format!("ok {}", sig_obs(&sig))
 }
 
+// ------------------------------------------------------------------------------- C-API plumbing
+
+type H = *mut SourmashKmerMinHash;
+
+/// set by the panic hook: a panic inside an `ffi_fn!` body is swallowed by `landingpad` (it only
+/// reaches `LAST_ERROR` when the library's own hook is installed), so it is made visible here
+static PANICKED: std::sync::atomic::AtomicBool = std::sync::atomic::AtomicBool::new(false);
+
+fn ffi_begin() {
+    static HOOK: std::sync::Once = std::sync::Once::new();
+    HOOK.call_once(|| {
+        std::panic::set_hook(Box::new(|_| {
+            PANICKED.store(true, std::sync::atomic::Ordering::SeqCst);
+        }))
+    });
+    PANICKED.store(false, std::sync::atomic::Ordering::SeqCst);
+    unsafe { sourmash_err_clear() };
+}
+
+/// `sourmash_err_get_last_code` after a call, as the native op's `err <Variant>` (codes of
+/// `SourmashErrorCode`, src/core/src/errors.rs); `None` = the call reported no error
+fn ffi_end() -> Option<String> {
+    let code = unsafe { sourmash_err_get_last_code() } as u32;
+    unsafe { sourmash_err_clear() };
+    if PANICKED.swap(false, std::sync::atomic::Ordering::SeqCst) {
+        return Some("PANIC".into());
+    }
+    let name = match code {
+        0 => return None,
+        101 => "MismatchKSizes",
+        102 => "MismatchDNAProt",
+        103 => "MismatchScaled",
+        104 => "MismatchSeed",
+        108 => "NeedsAbundanceTracking",
+        109 => "CannotUpsampleScaled",
+        c => return Some(format!("err code{}", c)),
+    };
+    Some(format!("err {}", name))
+}
+
+fn ffi_mol(s: &str) -> FfiHashFunctions {
+    match s {
+        "protein" => FfiHashFunctions::Murmur64Protein,
+        "dayhoff" => FfiHashFunctions::Murmur64Dayhoff,
+        "hp" => FfiHashFunctions::Murmur64Hp,
+        _ => FfiHashFunctions::Murmur64Dna,
+    }
+}
+
+fn mol_name(h: &HashFunctions) -> &'static str {
+    match h {
+        HashFunctions::Murmur64Dna => "dna",
+        HashFunctions::Murmur64Protein => "protein",
+        HashFunctions::Murmur64Dayhoff => "dayhoff",
+        HashFunctions::Murmur64Hp => "hp",
+        _ => "custom",
+    }
+}
+
+/// take a `u64` array handed out by the library (`Box<[u64]>::into_raw`) and give it back
+unsafe fn take_slice(p: *const u64, n: usize) -> Vec<u64> {
+    if p.is_null() {
+        return vec![];
+    }
+    let v = std::slice::from_raw_parts(p, n).to_vec();
+    kmerminhash_slice_free(p as *mut u64, n);
+    v
+}
+
+/// `mins=… abunds=…` read through `kmerminhash_get_mins` / `kmerminhash_track_abundance` /
+/// `kmerminhash_get_abunds`
+unsafe fn ffi_obs(h: H) -> String {
+    ffi_begin();
+    let mut n = 0usize;
+    let p = kmerminhash_get_mins(h, &mut n);
+    if let Some(e) = ffi_end() {
+        return e;
+    }
+    let mins = take_slice(p, n);
+    let ab = if kmerminhash_track_abundance(h) {
+        ffi_begin();
+        let mut n = 0usize;
+        let p = kmerminhash_get_abunds(h, &mut n);
+        if let Some(e) = ffi_end() {
+            return e;
+        }
+        show_nats(take_slice(p, n))
+    } else {
+        "none".into()
+    };
+    format!("mins={} abunds={}", show_nats(mins), ab)
+}
+
+/// run `f` on the register as a C handle and put the (possibly modified) sketch back
+fn with_handle<T>(st: &mut St, r: u64, f: impl FnOnce(H) -> T) -> Option<T> {
+    match st.regs.remove(&r) {
+        Some(Reg::V(x)) => unsafe {
+            let h = SourmashKmerMinHash::from_rust(x);
+            let out = f(h);
+            st.regs.insert(r, Reg::V(*SourmashKmerMinHash::into_rust(h)));
+            Some(out)
+        },
+        Some(other) => {
+            st.regs.insert(r, other);
+            None
+        }
+        None => None,
+    }
+}
+
+/// a handle to a copy of the register (freed by the caller with `kmerminhash_free`)
+fn copy_handle(st: &St, r: u64) -> Option<H> {
+    match st.regs.get(&r) {
+        Some(Reg::V(x)) => Some(unsafe { SourmashKmerMinHash::from_rust(x.clone()) }),
+        _ => None,
+    }
+}
+
+fn params(num: u32, max_hash: u64, ksize: u64, seed: u64, mol: &str, track: bool) -> String {
+    format!("num={} max_hash={} ksize={} seed={} mol={} track={}", num, max_hash, ksize, seed, mol, track as u8)
+}
+
+/// the ops that go through the C API; `None` = not one of them
+fn cstep(st: &mut St, ws: &[&str]) -> Option<String> {
+    let n = |i: usize| -> u64 { ws[i].parse().unwrap() };
+    let bad = || Some("bad-op".to_string());
+    Some(match ws[0] {
+        "cnew" => unsafe {
+            // cnew R scaled num ksize mol seed track
+            if st.tree {
+                return bad();
+            }
+            ffi_begin();
+            let h = kmerminhash_new(n(2), n(4) as u32, ffi_mol(ws[5]), n(6), ws[7] == "1", n(3) as u32);
+            if let Some(e) = ffi_end() {
+                return Some(e);
+            }
+            st.regs.insert(n(1), Reg::V(*SourmashKmerMinHash::into_rust(h)));
+            "ok".into()
+        },
+        "cobs" => with_handle(st, n(1), |h| unsafe { ffi_obs(h) })?,
+        "cparams" => with_handle(st, n(1), |h| unsafe {
+            let hf: HashFunctions = kmerminhash_hash_function(h).into();
+            let m = mol_name(&hf);
+            // the three predicates must agree with the enum
+            let flags = (kmerminhash_is_protein(h), kmerminhash_dayhoff(h), kmerminhash_hp(h));
+            if flags != (m == "protein", m == "dayhoff", m == "hp") {
+                return format!("inconsistent-molecule {} {:?}", m, flags);
+            }
+            params(
+                kmerminhash_num(h),
+                kmerminhash_max_hash(h),
+                kmerminhash_ksize(h) as u64,
+                kmerminhash_seed(h),
+                m,
+                kmerminhash_track_abundance(h),
+            )
+        })?,
+        "cadd" => {
+            let ps = parse_pairs(ws[2]);
+            with_handle(st, n(1), |h| unsafe {
+                for (x, a) in &ps {
+                    ffi_begin();
+                    kmerminhash_add_hash_with_abundance(h, *x, *a);
+                    if let Some(e) = ffi_end() {
+                        return e;
+                    }
+                }
+                ffi_obs(h)
+            })?
+        }
+        "caddm" => {
+            let hs = parse_nats(ws[2]);
+            with_handle(st, n(1), |h| unsafe {
+                ffi_begin();
+                kmerminhash_add_many(h, hs.as_ptr(), hs.len());
+                ffi_end().unwrap_or_else(|| ffi_obs(h))
+            })?
+        }
+        "csetab" => {
+            // csetab R clear h:a,…
+            let ps = parse_pairs(ws[3]);
+            let (hs, abs): (Vec<u64>, Vec<u64>) = ps.into_iter().unzip();
+            let clear = ws[2] == "1";
+            with_handle(st, n(1), |h| unsafe {
+                ffi_begin();
+                kmerminhash_set_abundances(h, hs.as_ptr(), abs.as_ptr(), hs.len(), clear);
+                ffi_end().unwrap_or_else(|| ffi_obs(h))
+            })?
+        }
+        "crmmany" => {
+            let hs = parse_nats(ws[2]);
+            with_handle(st, n(1), |h| unsafe {
+                ffi_begin();
+                kmerminhash_remove_many(h, hs.as_ptr(), hs.len());
+                ffi_end().unwrap_or_else(|| ffi_obs(h))
+            })?
+        }
+        "cmerge" | "caddfrom" | "crmfrom" => {
+            let o = copy_handle(st, n(2))?;
+            let op = ws[0];
+            let out = with_handle(st, n(1), |h| unsafe {
+                ffi_begin();
+                match op {
+                    "cmerge" => kmerminhash_merge(h, o),
+                    "caddfrom" => kmerminhash_add_from(h, o),
+                    _ => kmerminhash_remove_from(h, o),
+                }
+                ffi_end().unwrap_or_else(|| ffi_obs(h))
+            });
+            unsafe { kmerminhash_free(o) };
+            out?
+        }
+        "cisect" => unsafe {
+            // cisect D A B: the sketch returned by kmerminhash_intersection(A, B) goes to register D
+            let (a, b) = (copy_handle(st, n(2))?, copy_handle(st, n(3))?);
+            ffi_begin();
+            let r = kmerminhash_intersection(a, b);
+            let e = ffi_end();
+            kmerminhash_free(a);
+            kmerminhash_free(b);
+            if let Some(e) = e {
+                if !r.is_null() {
+                    kmerminhash_free(r);
+                }
+                return Some(e);
+            }
+            if r.is_null() {
+                return Some("null".into());
+            }
+            let s = ffi_obs(r);
+            st.regs.insert(n(1), Reg::V(*SourmashKmerMinHash::into_rust(r)));
+            s
+        },
+        "cisize" | "ccc" | "ccompat" => unsafe {
+            let (a, b) = (copy_handle(st, n(1))?, copy_handle(st, n(2))?);
+            ffi_begin();
+            let s = match ws[0] {
+                "cisize" => {
+                    let mut u = u64::MAX;
+                    let c = kmerminhash_intersection_union_size(a, b, &mut u);
+                    format!("common={} union={}", c, u)
+                }
+                "ccc" => format!("common={}", kmerminhash_count_common(a, b, ws[3] == "1")),
+                _ => format!("compatible={}", kmerminhash_is_compatible(a, b) as u8),
+            };
+            let e = ffi_end();
+            kmerminhash_free(a);
+            kmerminhash_free(b);
+            e.unwrap_or(s)
+        },
+        _ => return None,
+    })
+}
+
 struct St {
     tree: bool,
     regs: BTreeMap<u64, Reg>,
@@ -180,6 +446,21 @@ fn err<E: std::fmt::Debug>(e: E) -> String {
 
 fn step(st: &mut St, ws: &[&str]) -> String {
     let n = |i: usize| -> u64 { ws[i].parse().unwrap() };
+    // an op on a register that does not exist (its producer failed earlier in the case)
+    let reg_args: &[usize] = match ws[0] {
+        "copy" => &[2],
+        "obs" | "cobs" | "params" | "cparams" | "add" | "cadd" | "addm" | "caddm" | "rmmany" | "crmmany" | "csetab" => &[1],
+        "merge" | "cmerge" | "addfrom" | "caddfrom" | "rmfrom" | "crmfrom" | "inflate" | "infab" | "isect" | "isize" | "cisize"
+        | "cc" | "ccc" | "ccompat" => &[1, 2],
+        "cisect" => &[2, 3],
+        _ => &[],
+    };
+    if reg_args.iter().any(|i| !st.regs.contains_key(&n(*i))) {
+        return "bad-reg".into();
+    }
+    if ws[0].starts_with('c') && !matches!(ws[0], "case" | "copy" | "cc") {
+        return cstep(st, ws).unwrap_or_else(|| "bad-op".into());
+    }
     match ws[0] {
         "case" => {
             st.tree = ws.get(2) == Some(&"tree");
@@ -197,6 +478,40 @@ fn step(st: &mut St, ws: &[&str]) -> String {
             st.regs.insert(n(1), r);
             "ok".into()
         }
+        "newmh" => {
+            // newmh R max_hash num ksize mol seed track: the ceiling is given as it is (a sketch read
+            // from a file, or built by a caller of the builder), not derived from a scaled value
+            let (max_hash, num, ksize, seed, track) = (n(2), n(3) as u32, n(4) as u32, n(6), ws[7] == "1");
+            let r = if st.tree {
+                Reg::T(
+                    KmerMinHashBTree::builder()
+                        .num(num)
+                        .ksize(ksize)
+                        .hash_function(mol(ws[5]))
+                        .seed(seed)
+                        .max_hash(max_hash)
+                        .abunds(if track { Some(Default::default()) } else { None })
+                        .build(),
+                )
+            } else {
+                Reg::V(
+                    KmerMinHash::builder()
+                        .num(num)
+                        .ksize(ksize)
+                        .hash_function(mol(ws[5]))
+                        .seed(seed)
+                        .max_hash(max_hash)
+                        .abunds(if track { Some(vec![]) } else { None })
+                        .build(),
+                )
+            };
+            st.regs.insert(n(1), r);
+            "ok".into()
+        }
+        "params" => match &st.regs[&n(1)] {
+            Reg::V(x) => params(x.num(), x.max_hash(), x.ksize() as u64, x.seed(), mol_name(&x.hash_function()), x.track_abundance()),
+            Reg::T(x) => params(x.num(), x.max_hash(), x.ksize() as u64, x.seed(), mol_name(&x.hash_function()), x.track_abundance()),
+        },
         "copy" => {
             let b = st.regs[&n(2)].clone();
             st.regs.insert(n(1), b);
@@ -309,28 +624,73 @@ struct Params {
     mol: &'static str,
     seed: u64,
     track: bool,
+    /// `Some(x)`: the ceiling is given directly (`newmh`), not derived from `scaled`
+    max_hash: Option<u64>,
 }
 impl Params {
     fn line(&self, r: u64) -> String {
-        format!(
-            "new {} {} {} {} {} {} {}",
-            r, self.scaled, self.num, self.ksize, self.mol, self.seed, self.track as u8
-        )
+        match self.max_hash {
+            Some(x) => format!(
+                "newmh {} {} {} {} {} {} {}",
+                r, x, self.num, self.ksize, self.mol, self.seed, self.track as u8
+            ),
+            None => format!(
+                "new {} {} {} {} {} {} {}",
+                r, self.scaled, self.num, self.ksize, self.mol, self.seed, self.track as u8
+            ),
+        }
+    }
+    fn ceiling(&self) -> u64 {
+        self.max_hash.unwrap_or_else(|| max_hash_for_scaled(self.scaled))
     }
 }
 
-/// a small universe of hashes: tiny values, values around the ceiling, the top of the u64 range
-fn universe(r: &mut Rng, scaled: u64) -> Vec<u64> {
+/// a ceiling that is NOT (in general) in the image of `max_hash_for_scaled`: next to a canonical one,
+/// between two canonical ones, powers of two, the top of the range, tiny, anything
+fn odd_max_hash(r: &mut Rng) -> u64 {
+    let s = *r.pick(&[1u64, 2, 2, 3, 10, 1000, 1000, 10_000, 1 << 20, 1 << 32]);
+    let c = max_hash_for_scaled(s);
+    let x = match r.below(11) {
+        0 => c.saturating_add(1),
+        1 => c - 1,
+        2 => c.saturating_add(r.range(2, 6000)),
+        3 => c - r.range(2, 6000).min(c - 1),
+        4 => {
+            // strictly between the ceilings of scaled = s + 1 and scaled = s
+            let d = max_hash_for_scaled(s + 1);
+            d + 1 + r.below(c - d - 1)
+        }
+        5 => 1u64 << 63,
+        6 => u64::MAX - 1,
+        7 => *r.pick(&[12_000_000_000_000_000_000u64, 7_000_000_000_000_000_000, (1 << 63) + 1, (1 << 63) - 1, u64::MAX, 1 << 62, 1 << 32]),
+        8 => r.bits(64),
+        9 => {
+            let b = r.range(8, 63) as u32;
+            r.bits(b)
+        }
+        _ => r.range(1, 200),
+    };
+    x.max(1)
+}
+
+/// a small universe of hashes: tiny values, values around the ceiling `mh`, the top of the u64 range
+/// and — when `mh` is not what `scaled()` maps back to — values around the re-derived ceiling
+/// `max_hash_for_scaled(scaled_for_max_hash(mh))` and inside the band between the two
+fn universe(r: &mut Rng, mh: u64) -> Vec<u64> {
     let mut u: Vec<u64> = vec![];
-    let mh = max_hash_for_scaled(scaled);
+    let c = if mh != 0 { max_hash_for_scaled(scaled_for_max_hash(mh)) } else { 0 };
+    let (lo, hi) = (c.min(mh), c.max(mh));
+    let band = lo != hi;
     let n = r.range(4, 14);
     for _ in 0..n {
-        let v = match r.below(6) {
+        let v = match r.below(if band { 9 } else { 6 }) {
             0 => r.below(12),
             1 => r.bits(64),
             2 if mh != 0 => mh - r.below(4).min(mh),
             3 if mh != 0 => mh.saturating_add(r.below(3)),
             4 => u64::MAX - r.below(3),
+            6 | 7 => lo + 1 + r.below(hi - lo),
+            8 => *r.pick(&[lo.saturating_sub(1), lo, lo + 1, hi - 1, hi, hi.saturating_add(1)]),
             _ => r.range(1, 40),
         };
         if !u.contains(&v) {
@@ -369,11 +729,24 @@ fn show_items(v: &[(u64, u64)]) -> String {
     }
 }
 
-fn emit_add(o: &mut Out, r: &mut Rng, reg: u64, it: &[(u64, u64)]) {
-    if r.chance(1, 4) {
-        o.op(&format!("addm {} {}", reg, show_nats(it.iter().map(|p| p.0))));
+/// the ops that exist under the same name (+ `c`) and with the same answer in the C-API stream
+const CAPI_OPS: [&str; 11] = ["new", "obs", "params", "add", "addm", "rmmany", "merge", "addfrom", "rmfrom", "isize", "cc"];
+
+/// one op line; in a C-API case three out of four go through the exported function
+fn emit(o: &mut Out, r: &mut Rng, capi: bool, line: &str) {
+    let op = line.split(' ').next().unwrap();
+    if capi && CAPI_OPS.contains(&op) && r.chance(3, 4) {
+        o.op(&format!("c{}", line));
     } else {
-        o.op(&format!("add {} {}", reg, show_items(it)));
+        o.op(line);
+    }
+}
+
+fn emit_add(o: &mut Out, r: &mut Rng, capi: bool, reg: u64, it: &[(u64, u64)]) {
+    if r.chance(1, 4) {
+        emit(o, r, capi, &format!("addm {} {}", reg, show_nats(it.iter().map(|p| p.0))));
+    } else {
+        emit(o, r, capi, &format!("add {} {}", reg, show_items(it)));
     }
 }
 
@@ -531,32 +904,72 @@ fn gen(a: &Args) {
     for ci in 0..ncases {
         let ty = if ci % 2 == 0 { "vec" } else { "tree" };
         let kind = r.below(10);
+        // the C API knows the vector type only; half of its cases go (mostly) through it
+        let capi = ty == "vec" && r.chance(1, 2);
         // parameters of the first operand
         let is_num = r.chance(1, 3);
-        let pa = Params {
+        let mut pa = Params {
             scaled: if is_num { 0 } else { *r.pick(&[1u64, 2, 1000]) },
             num: if is_num { *r.pick(&[1u64, 3, 8]) } else { 0 },
             ksize: *r.pick(&[21u64, 31]),
             mol: mols[r.below(4) as usize],
             seed: *r.pick(&[42u64, 7]),
             track: r.chance(1, 2),
+            max_hash: None,
         };
-        let u = universe(&mut r, pa.scaled);
-        if kind == 0 {
-            // ---- abundance 0 insertions: the two types differ (vector removes, tree ignores); model only
-            o.case(&format!("{} nospec zero-abundance", ty));
-            o.op(&pa.line(0));
-            let ka = subset(&mut r, &u, 2, 3);
-            let it = items(&mut r, &ka, 4);
-            o.op(&format!("add 0 {}", show_items(&it)));
-            for _ in 0..r.range(1, 4) {
-                let h = *r.pick(&u);
-                o.op(&format!("add 0 {}:0", h));
+        // two scaled cases in five: a ceiling given directly
+        if !is_num && r.chance(2, 5) {
+            pa.max_hash = Some(odd_max_hash(&mut r));
+        }
+        // a num bound AND a ceiling (KmerMinHash::new(scaled, .., num) / the builder allow it; the
+        // property does not speak about such sketches): model column only
+        let hybrid = kind >= 2 && r.chance(1, 25);
+        if hybrid {
+            pa.num = *r.pick(&[1u64, 3, 8]);
+            if is_num {
                 if r.chance(1, 2) {
-                    o.op(&format!("add 0 {}:{}", h, r.range(1, 3)));
+                    pa.scaled = *r.pick(&[1u64, 2, 1000]);
+                } else {
+                    pa.max_hash = Some(odd_max_hash(&mut r));
                 }
             }
-            o.op("obs 0");
+        }
+        let tag = format!(
+            "num={} scaled={} mh={}{}{}",
+            pa.num,
+            if pa.max_hash.is_some() { "given".to_string() } else { pa.scaled.to_string() },
+            pa.ceiling(),
+            if capi { " capi" } else { "" },
+            if hybrid { " nospec hybrid" } else { "" }
+        );
+        let u = universe(&mut r, pa.ceiling());
+        if kind == 0 {
+            // ---- abundance 0 insertions: the two types differ (vector removes, tree ignores); model only
+            o.case(&format!("{} nospec zero-abundance {}", ty, tag));
+            emit(&mut o, &mut r, capi, &pa.line(0));
+            let ka = subset(&mut r, &u, 2, 3);
+            let it = items(&mut r, &ka, 4);
+            emit(&mut o, &mut r, capi, &format!("add 0 {}", show_items(&it)));
+            for _ in 0..r.range(1, 4) {
+                let h = *r.pick(&u);
+                emit(&mut o, &mut r, capi, &format!("add 0 {}:0", h));
+                if r.chance(1, 2) {
+                    let l = format!("add 0 {}:{}", h, r.range(1, 3));
+                    emit(&mut o, &mut r, capi, &l);
+                }
+            }
+            if ty == "vec" {
+                // set_abundances with zeros among the pairs (sorted before they are applied)
+                let kz = subset(&mut r, &u, 1, 2);
+                let mut iz = items(&mut r, &kz, 3);
+                for p in iz.iter_mut() {
+                    if r.chance(1, 3) {
+                        p.1 = 0;
+                    }
+                }
+                o.op(&format!("csetab 0 {} {}", r.below(2), show_items(&iz)));
+            }
+            emit(&mut o, &mut r, capi, "obs 0");
             continue;
         }
         if kind == 1 {
@@ -575,12 +988,20 @@ fn gen(a: &Args) {
                     0 => pb.ksize = if pa.ksize == 21 { 31 } else { 21 },
                     1 => pb.mol = mols[((mols.iter().position(|m| *m == pa.mol).unwrap() as u64 + r.range(1, 3)) % 4) as usize],
                     2 => {
-                        // max_hash differs: another scaled, or scaled vs num
+                        // max_hash differs: another scaled, scaled vs num, or a ceiling next to the
+                        // other one (same scaled(), different max_hash)
                         if is_num {
                             pb.scaled = *r.pick(&[1u64, 2, 1000]);
                             pb.num = 0;
+                        } else if r.chance(1, 3) {
+                            let c = pa.ceiling();
+                            let d = *r.pick(&[1u64, 1, 2, 1000]);
+                            let x = if c > d && (r.chance(1, 2) || c.checked_add(d).is_none()) { c - d } else { c.saturating_add(d) };
+                            pb.max_hash = Some(if x == c { c - 1 } else { x });
                         } else {
-                            let others: Vec<u64> = [1u64, 2, 1000, 0].iter().cloned().filter(|s| *s != pa.scaled).collect();
+                            pb.max_hash = None;
+                            let others: Vec<u64> =
+                                [1u64, 2, 1000, 0].iter().cloned().filter(|s| *s == 0 || max_hash_for_scaled(*s) != pa.ceiling()).collect();
                             pb.scaled = *r.pick(&others);
                             pb.num = if pb.scaled == 0 { *r.pick(&[1u64, 3, 8]) } else { 0 };
                         }
@@ -588,21 +1009,30 @@ fn gen(a: &Args) {
                     _ => pb.seed = if pa.seed == 42 { 7 } else { 42 },
                 }
             }
-            o.case(&format!("{} incompatible {:?}", ty, diffs));
-            o.op(&pa.line(0));
-            o.op(&pb.line(1));
+            o.case(&format!("{} incompatible {:?} {}", ty, diffs, tag));
+            emit(&mut o, &mut r, capi, &pa.line(0));
+            emit(&mut o, &mut r, capi, &pb.line(1));
             let ka = subset(&mut r, &u, 2, 3);
             let kb = subset(&mut r, &u, 2, 3);
             let (ia, ib) = (items(&mut r, &ka, 4), items(&mut r, &kb, 4));
-            emit_add(&mut o, &mut r, 0, &ia);
-            emit_add(&mut o, &mut r, 1, &ib);
-            let mut ops = vec!["merge 0 1", "merge 1 0", "isect 0 1", "isect 1 0", "isize 0 1", "isize 1 0", "cc 0 1 0", "cc 1 0 0"];
+            emit_add(&mut o, &mut r, capi, 0, &ia);
+            emit_add(&mut o, &mut r, capi, 1, &ib);
+            emit(&mut o, &mut r, capi, "params 0");
+            emit(&mut o, &mut r, capi, "params 1");
+            let mut ops = vec!["merge 0 1", "merge 1 0", "isect 0 1", "isect 1 0", "cc 0 1 0", "cc 1 0 0"];
             if ty == "vec" {
-                ops.extend(["inflate 0 1", "inflate 1 0", "infab 0 1", "infab 1 0"]);
+                ops.extend(["inflate 0 1", "inflate 1 0", "infab 0 1", "infab 1 0", "cisect 2 0 1", "cisect 2 1 0", "ccompat 0 1", "ccompat 1 0"]);
             }
             for op in ops {
-                o.op(op);
+                emit(&mut o, &mut r, capi, op);
                 // a failed operation leaves both operands unchanged
+                emit(&mut o, &mut r, capi, "obs 0");
+                emit(&mut o, &mut r, capi, "obs 1");
+            }
+            // native only: kmerminhash_intersection_union_size swallows the error (findings/C03.json,
+            // corpus/C03/capi-isize-incompatible.ops)
+            for op in ["isize 0 1", "isize 1 0"] {
+                o.op(op);
                 o.op("obs 0");
                 o.op("obs 1");
             }
@@ -612,7 +1042,7 @@ fn gen(a: &Args) {
         let regime = REGIMES[r.below(REGIMES.len() as u64) as usize];
         let mut pb = pa.clone();
         pb.track = if r.chance(2, 3) { pa.track } else { !pa.track };
-        if is_num && r.chance(1, 5) {
+        if pa.num != 0 && r.chance(1, 5) {
             pb.num = *r.pick(&[1u64, 3, 8]);
         }
         let mut pc = pa.clone();
@@ -621,44 +1051,46 @@ fn gen(a: &Args) {
         let kb = second_keys(&mut r, regime, &u, &ka);
         let kc = subset(&mut r, &u, 1, 2);
         let (ia, ib, ic) = (items(&mut r, &ka, 5), items(&mut r, &kb, 5), items(&mut r, &kc, 5));
-        o.case(&format!("{} {} num={} scaled={}", ty, regime, pa.num, pa.scaled));
-        o.op(&pa.line(0));
-        o.op(&pb.line(1));
-        o.op(&pc.line(2));
-        emit_add(&mut o, &mut r, 0, &ia);
-        emit_add(&mut o, &mut r, 1, &ib);
-        emit_add(&mut o, &mut r, 2, &ic);
+        o.case(&format!("{} {} {}", ty, regime, tag));
+        emit(&mut o, &mut r, capi, &pa.line(0));
+        emit(&mut o, &mut r, capi, &pb.line(1));
+        emit(&mut o, &mut r, capi, &pc.line(2));
+        emit_add(&mut o, &mut r, capi, 0, &ia);
+        emit_add(&mut o, &mut r, capi, 1, &ib);
+        emit_add(&mut o, &mut r, capi, 2, &ic);
+        emit(&mut o, &mut r, capi, "params 0");
         // sizes and intersections, both argument orders
         for op in ["isect 0 1", "isect 1 0", "isize 0 1", "isize 1 0", "cc 0 1 0", "cc 1 0 0", "cc 0 1 1", "isect 0 0", "isize 1 1"] {
-            o.op(op);
+            emit(&mut o, &mut r, capi, op);
         }
         // merge: commutativity, idempotence, homomorphism, associativity
         o.op("copy 3 0");
-        o.op("merge 3 1");
+        emit(&mut o, &mut r, capi, "merge 3 1");
         o.op("copy 4 1");
-        o.op("merge 4 0");
+        emit(&mut o, &mut r, capi, "merge 4 0");
         o.op("copy 5 0");
-        o.op("merge 5 0");
+        emit(&mut o, &mut r, capi, "merge 5 0");
         // sketch of the concatenation, built directly (parameters of the merge result)
         let mut pd = pa.clone();
         pd.track = pa.track && pb.track;
-        o.op(&pd.line(6));
+        emit(&mut o, &mut r, capi, &pd.line(6));
         let mut cat = ia.clone();
         cat.extend(ib.iter().cloned());
-        o.op(&format!("add 6 {}", show_items(&cat)));
+        emit(&mut o, &mut r, capi, &format!("add 6 {}", show_items(&cat)));
         o.op("copy 7 3");
-        o.op("merge 7 2"); // (A ∪ B) ∪ C
+        emit(&mut o, &mut r, capi, "merge 7 2"); // (A ∪ B) ∪ C
         o.op("copy 8 1");
-        o.op("merge 8 2");
+        emit(&mut o, &mut r, capi, "merge 8 2");
         o.op("copy 9 0");
-        o.op("merge 9 8"); // A ∪ (B ∪ C)
+        emit(&mut o, &mut r, capi, "merge 9 8"); // A ∪ (B ∪ C)
         // subtraction, add_from
         o.op("copy 10 0");
-        o.op("rmfrom 10 1");
+        emit(&mut o, &mut r, capi, "rmfrom 10 1");
         o.op("copy 11 0");
-        o.op(&format!("rmmany 11 {}", show_nats(subset(&mut r, &u, 1, 2))));
+        let l = format!("rmmany 11 {}", show_nats(subset(&mut r, &u, 1, 2)));
+        emit(&mut o, &mut r, capi, &l);
         o.op("copy 12 0");
-        o.op("addfrom 12 1");
+        emit(&mut o, &mut r, capi, "addfrom 12 1");
         if ty == "vec" {
             o.op("infab 0 1");
             o.op("infab 1 0");
@@ -666,17 +1098,32 @@ fn gen(a: &Args) {
             o.op("inflate 13 1");
             o.op("copy 14 1");
             o.op("inflate 14 0");
+            // the intersection as a sketch (C API only): holds exactly A ∩ B, has the parameters of
+            // its first operand — it is compatible with it and A ∪ (A ∩ B) = A
+            o.op("cisect 15 0 1");
+            o.op("cisect 16 1 0");
+            emit(&mut o, &mut r, capi, "params 15");
+            o.op("ccompat 0 15");
+            o.op("ccompat 0 1");
+            o.op("copy 17 0");
+            emit(&mut o, &mut r, capi, "merge 17 15");
+            emit(&mut o, &mut r, capi, "isize 15 16");
+            // set_abundances, with and without clear (what the Python layer builds inflate from)
+            let ks = subset(&mut r, &u, 1, 2);
+            let is = items(&mut r, &ks, 4);
+            o.op("copy 18 0");
+            o.op(&format!("csetab 18 {} {}", r.below(2), show_items(&is)));
         }
         // operands are not modified by any of the above
-        o.op("obs 0");
-        o.op("obs 1");
-        o.op("obs 2");
+        emit(&mut o, &mut r, capi, "obs 0");
+        emit(&mut o, &mut r, capi, "obs 1");
+        emit(&mut o, &mut r, capi, "obs 2");
         // keep going on a merged sketch: more insertions after a merge
         if r.chance(1, 3) {
             let ke = subset(&mut r, &u, 1, 3);
             let extra = items(&mut r, &ke, 3);
-            emit_add(&mut o, &mut r, 3, &extra);
-            o.op("isize 3 0");
+            emit_add(&mut o, &mut r, capi, 3, &extra);
+            emit(&mut o, &mut r, capi, "isize 3 0");
         }
     }
 }
